@@ -326,7 +326,14 @@ func (g *Gen) genAbs(at *Type, depth int) Expr {
 	switch g.R.Intn(6) {
 	case 0:
 		if !g.on("abstract.neg-compound") {
-			return &Unary{Op: "-", X: g.litOf(at), Ty: at}
+			l := g.litOf(at)
+			if isNegLit(l) {
+				if !g.on("abstract.neg-neg") {
+					return l
+				}
+				g.feat("abstract.neg-neg")
+			}
+			return &Unary{Op: "-", X: l, Ty: at}
 		}
 		g.feat("abstract.neg-compound")
 		return &Unary{Op: "-", X: g.genAbs(at, depth-1), Ty: at}
@@ -532,13 +539,25 @@ func (g *Gen) genIntBuiltin(t *Type, depth int) Expr {
 	if !g.on("fn." + name) {
 		name = "min"
 	}
+	if name == "abs" && sc.Kind == KU32 {
+		if !g.on("fn.abs.u32") {
+			name = "max"
+		} else {
+			g.feat("fn.abs.u32")
+		}
+	}
 	g.feat("fn." + name + "." + t.ShapeName())
 	a := func() Expr { return g.genExpr(t, depth-1) }
 	switch name {
 	case "min", "max":
 		return &Builtin{Name: name, Args: []Expr{a(), a()}, Ty: t}
 	case "clamp":
-		return &Builtin{Name: name, Args: []Expr{a(), a(), a()}, Ty: t}
+		if g.on("clamp.int-unordered") {
+			g.feat("clamp.int-unordered")
+			return &Builtin{Name: name, Args: []Expr{a(), a(), a()}, Ty: t}
+		}
+		lo, hi := a(), a()
+		return &Builtin{Name: name, Args: []Expr{a(), &Builtin{Name: "min", Args: []Expr{lo, hi}, Ty: t}, &Builtin{Name: "max", Args: []Expr{lo, hi}, Ty: t}}, Ty: t}
 	case "extractBits":
 		off, cnt := g.bitRange(depth)
 		return &Builtin{Name: name, Args: []Expr{a(), off, cnt}, Ty: t}
